@@ -92,3 +92,42 @@ Proof. intros. simpl. rewrite H, H0. simpl. apply Z.ltb_lt in H1. rewrite H1. re
 Lemma short_circuit_impl : forall x y en en1,
   arithm x en = (en1, Ok 0) -> arithm (Bin AndArit x y) en = (en1, Ok 0).
 Proof. intros. simpl. rewrite H. reflexivity. Qed.
+
+(* ---------------------------------------------------------------- operator-level agreement *)
+
+Lemma wrap64_id z : in64 z = true -> wrap64 z = z.
+Proof.
+  unfold in64, wrap64, two63, two64. intros H.
+  apply andb_prop in H. destruct H as [H1 H2]. apply Z.leb_le in H1. apply Z.ltb_lt in H2.
+  rewrite Z.mod_small; lia.
+Qed.
+
+Lemma chk_BV z v : chk z = BV v -> v = z /\ in64 z = true.
+Proof. unfold chk. destruct (in64 z) eqn:E; intros H; inversion H; auto. Qed.
+
+Lemma chk_not_BE z c : chk z <> BE c.
+Proof. unfold chk. destruct (in64 z); discriminate. Qed.
+
+(* operator level, every operator except `**`: wherever bash's result is defined (no signed overflow,
+   shift count in 0..63) the Go operator with its int64 wrap-around gives the same value / error *)
+Lemma bin_matches o x y :
+  o <> Pow -> bash_bin o x y <> BU -> bin_arit o x y = to_res (bash_bin o x y).
+Proof.
+  intros Hp Hu. destruct o; simpl in *; try congruence; try reflexivity;
+    try (unfold chk in *; destruct (in64 _) eqn:E; [rewrite (wrap64_id _ E); reflexivity|congruence]).
+  - destruct (y =? 0); [reflexivity|]. unfold chk in *. destruct (in64 _) eqn:E; [rewrite (wrap64_id _ E); reflexivity|congruence].
+  - destruct (y =? 0); reflexivity.
+  - unfold go_shr. destruct ((0 <=? y) && (y <? 64)); [reflexivity|congruence].
+  - unfold go_shl. destruct ((0 <=? y) && (y <? 64)); [reflexivity|congruence].
+Qed.
+
+Lemma assgn_matches o v a :
+  is_assign o = true -> bash_assgn_op o v a <> BU -> assgn_op o v a = to_res (bash_assgn_op o v a).
+Proof.
+  intros Ha Hu. destruct o; simpl in Ha; try discriminate; simpl in *; try reflexivity;
+    try (unfold chk in *; destruct (in64 _) eqn:E; [rewrite (wrap64_id _ E); reflexivity|congruence]).
+  - destruct (a =? 0); [reflexivity|]. unfold chk in *. destruct (in64 _) eqn:E; [rewrite (wrap64_id _ E); reflexivity|congruence].
+  - destruct (a =? 0); reflexivity.
+  - unfold go_shl. destruct ((0 <=? a) && (a <? 64)); [reflexivity|congruence].
+  - unfold go_shr. destruct ((0 <=? a) && (a <? 64)); [reflexivity|congruence].
+Qed.
